@@ -6,6 +6,7 @@ import (
 	"strconv"
 	"strings"
 	"sync"
+	"sync/atomic"
 
 	"verif/common"
 
@@ -147,11 +148,22 @@ func puBasesFor(l int) []int {
 func puRunText(r *common.Run, s string, ev, nt *int64) {
 	for _, base := range puBasesFor(len(s)) {
 		for _, bs := range puBits {
-			*ev++
-			if checkPU(r, s, base, bs) || len(s) >= 2 {
-				*nt++
-			}
+			puCount(checkPU(r, s, base, bs), s, base, bs, ev, nt)
 		}
+	}
+}
+
+var puAccepted int64 // tuples the oracle parses without error
+
+// puCount applies the non-triviality rule: base and bit size are legal for strconv and the oracle
+// either fails (syntax / range) or accepts a text of >= 2 characters.
+func puCount(oracleErr bool, s string, base, bs int, ev, nt *int64) {
+	*ev++
+	if strconvAccepts(base, bs) && (oracleErr || len(s) >= 2) {
+		*nt++
+	}
+	if !oracleErr {
+		atomic.AddInt64(&puAccepted, 1)
 	}
 }
 
@@ -313,16 +325,14 @@ func parseUintBoundaries(r *common.Run) {
 							continue
 						}
 						seen[key] = struct{}{}
-						ev++
-						if checkPU(r, in.text, in.base, bs) || len(in.text) >= 2 {
-							nt++
-						}
+						puCount(checkPU(r, in.text, in.base, bs), in.text, in.base, bs, &ev, &nt)
 					}
 				}
 			}
 		}
 		return ev, nt
 	})
+	r.Cov("parseuint_tuples_accepted_by_strconv", atomic.LoadInt64(&puAccepted))
 	puSample(r, "ParseUint boundary", "0x10_000_000_000_000_000", 0, 64)
 	puSample(r, "ParseUint boundary", "3w5e11264sgsf", 36, 64)
 }
